@@ -4,6 +4,7 @@ Only property theorems and non-vacuity examples live here; helper lemmas are in 
 -/
 import JaxVerif.Spec.Array
 import JaxVerif.Lemmas.Array
+import JaxVerif.Generated.CheckCode
 
 namespace JV
 
@@ -97,6 +98,56 @@ theorem C01_bcast_spec (a b c : List Nat) :
         ∀ i, i < c.length →
           b1 ((a.reverse)[i]?.getD 1) ((b.reverse)[i]?.getD 1) = some ((c.reverse)[i]?.getD 1)) :=
   bcast_spec a b c
+
+/-! ### the tie to the source: translated code = model
+
+`harness/translate.py` translates the `if / elif / else` chain of `_check_dims` and the multi-axis
+part of `_check_shape` from the CURRENT Python source into the language of `Model/SourceDsl.lean`
+(`Generated/CheckCode.lean`, rewritten on every run). The two theorems below are re-proved on every
+run by scripts that only split on the atoms the code can look at and compute, so they keep holding
+under restructurings of the source that mean the same and stop holding under those that do not. -/
+
+set_option linter.unusedSimpArgs false
+
+/-- **`_check_dims` as the source has it today is the model's `checkDim`**, for every axis
+    specifier, size, context and `?`-label -/
+theorem C01_source_check_dims (tp : TreePath) (args : Args) (σ : Single) (d : Dim) (n : Nat) :
+    runChain tp args σ d n Generated.checkDimsChain = checkDim tp args σ d n := by
+  cases d with
+  | anon => simp [Generated.checkDimsChain, runChain, DGuard.holds, DAction.run, checkDim]
+  | fixed k b =>
+    cases b <;> by_cases h : n = 1 <;>
+      simp [Generated.checkDimsChain, runChain, DGuard.holds, DAction.run, checkDim, h] <;>
+      first | rfl | (split <;> rfl)
+  | named x b t =>
+    cases b <;> by_cases h : n = 1 <;>
+      simp [Generated.checkDimsChain, runChain, DGuard.holds, DAction.run, checkDim, h] <;>
+      first | rfl | (split <;> rfl)
+  | sym e b =>
+    cases b <;> by_cases h : n = 1 <;>
+      simp [Generated.checkDimsChain, runChain, DGuard.holds, DAction.run, checkDim, h] <;>
+      first | rfl | (split <;> rfl)
+
+/-- **the multi-axis branch of `_check_shape` as the source has it today is the model's `vstep`**:
+    for every earlier binding `(prev_broadcastable, prev_shape)`, every use `*name` / `*#name` and
+    every shape, the translated statements reject exactly when `vstep` does and leave exactly the
+    value `vstep` computes in the memo -/
+theorem C01_source_variadic (prevB : Bool) (prev : List Nat) (curB : Bool) (new : List Nat) :
+    runVariadic Generated.variadicCode prevB prev curB new = vstep (some (prevB, prev)) curB new := by
+  unfold runVariadic
+  cases prevB <;> cases curB <;> cases e1 : (new != prev) <;>
+   (cases hb : bcast new prev with
+    | none => simp only [Generated.variadicCode, runV, runStmt, VCond.eval, vstep, e1, hb, Bool.or_false, Bool.or_true, Bool.true_or, Bool.false_or, Bool.not_true, Bool.not_false, Bool.and_true, Bool.and_false, Bool.true_and, Bool.false_and, Bool.false_eq_true, if_true, if_false, ite_true, ite_false, reduceCtorEq, Option.map_some, Option.map_none, Option.getD_some, Option.getD_none] <;> try simp_all
+    | some j =>
+      cases e2 : (j != new) <;> cases e3 : (j != prev) <;>
+        (have h1 := e1; have h2 := e2; have h3 := e3
+         simp only [bne_iff_ne, ne_eq, bne_eq_false_iff_eq] at h1 h2 h3
+         simp only [Generated.variadicCode, runV, runStmt, VCond.eval, vstep, e1, e2, e3, hb, Bool.or_false, Bool.or_true, Bool.true_or, Bool.false_or, Bool.not_true, Bool.not_false, Bool.and_true, Bool.and_false, Bool.true_and, Bool.false_and, Bool.false_eq_true, if_true, if_false, ite_true, ite_false, reduceCtorEq, Option.map_some, Option.map_none, Option.getD_some, Option.getD_none]
+         try simp_all))
+
+/-- the first use of a multi-axis name stores `(broadcastable, shape)` — as `vstep none` does -/
+theorem C01_source_variadic_first (b : Bool) (n : List Nat) :
+    Generated.variadicFirstStoresCurNew = true ∧ vstep none b n = some (b, n) := ⟨by decide, rfl⟩
 
 /-! non-vacuity: concrete states meeting the hypotheses -/
 
